@@ -521,10 +521,17 @@ contract(
 )
 
 
+def _depths_sub(d):
+    return f"all(g in {_AGM} and {d}[g] == comp_depth({_AGM}[g]) and {d}[g] > 0 for g in {d})"
+
+
+def _depths_sup(d):
+    return f"all(implies(comp_depth({_AGM}[g]) > 0, g in {d}) for g in {_AGM})"
+
+
 def _depths_ok(d):
     """d is exactly the map name -> component-tree height of the composite glyphs"""
-    return (f"all(g in {_AGM} and {d}[g] == comp_depth({_AGM}[g]) and {d}[g] > 0 for g in {d})"
-            f" and all(implies(comp_depth({_AGM}[g]) > 0, g in {d}) for g in {_AGM})")
+    return _depths_sub(d) + " and " + _depths_sup(d)
 
 
 _NO_CYCLE = f"not any(comp_cyclic({_AGM}[g]) for g in {_AGM})"
@@ -538,11 +545,14 @@ contract(
     params={"self": Ref("OutlineCompilerT")},
     returns=Opt(Dict(STR, INT)),
     globals=_GMCD_GLOBALS,
-    requires=[_CACHE_OK],
+    # (the first clause is a tautology: it makes the engine state the dict well-formedness facts of allGlyphs unguarded,
+    #  before the disjunction below mentions the dict under a guard)
+    requires=[f"len({_AGM}) >= 0", _CACHE_OK],
     modifies=["OutlineCompilerT._maxComponentDepths"],
     ensures={
         "is-a-dict": "result is not None",
-        "exact": _depths_ok("result"),
+        "only-composites": _depths_sub("result"),
+        "every-composite": _depths_sup("result"),
         "cached": "self._maxComponentDepths == result",
     },
     raises={"InvalidFontData": f"any(comp_cyclic({_AGM}[g]) for g in {_AGM})"},
@@ -568,14 +578,15 @@ contract(
     models={"builtins.max": _max_default},
     requires=[
         "'maxp' in self.tables",
-        _CACHE_OK,
         # '.notdef' is always in the glyph set (makeMissingRequiredGlyphs, contract under C03): max() of an empty sequence raises
         f"len({_AGM}) > 0",
+        _CACHE_OK,
     ],
     modifies=["OutlineCompilerT._maxComponentDepths"],
     ensures={
         "num-glyphs": f"{_MP}.numGlyphs == len(self.glyphOrder)",
-        "max-component-elements": f"all({_MP}.maxComponentElements >= {_NCOMP} for g in {_AGM}) and any({_MP}.maxComponentElements == {_NCOMP} for g in {_AGM})",
+        "max-component-elements": f"all({_MP}.maxComponentElements >= {_NCOMP} for g in {_AGM})",
+        "max-component-elements-attained": f"any({_MP}.maxComponentElements == {_NCOMP} for g in {_AGM})",
         "max-component-depth": f"all({_MP}.maxComponentDepth >= comp_depth({_AGM}[g]) for g in {_AGM})"
         f" and (any({_MP}.maxComponentDepth == comp_depth({_AGM}[g]) for g in {_AGM}) or {_MP}.maxComponentDepth == 0)",
         "version": f"{_MP}.tableVersion == 0x00010000",
@@ -614,3 +625,95 @@ def _maxp_build(d):
 
 for _m in ("getMaxComponentDepths", "setupTable_maxp"):
     CONTRACTS[f"ufo2ft.outlineCompiler:OutlineTTFCompiler.{_m}"].runtime = Runtime(_maxp_cases, _maxp_build, call=lambda fn, a: fn(a["self"]))
+
+
+# =====================================================================================================
+# OS/2 first / last character index: the smallest mapped code point, and the largest one clipped to 0xFFFF
+# (0xFFFF for both when nothing is mapped).  The function is long; everything it needs besides the last dozen lines
+# (info summaries, OS/2 table object methods, intListToNum, math.tan) is the vocabulary that contracts/c16.py
+# registers for its own `#c16` variant of this function (which states the info-derived fields); this variant states
+# the two fields derived from the CHARACTER MAP.
+_OS2 = "self.otf['OS/2']"
+_UM = "self.unicodeToGlyphNameMapping"
+_HAS_OS2 = "'OS/2' in self.tables"
+
+
+def _gi(attr):
+    return f"getAttrWithFallback(self.ufo.info, '{attr}')"
+
+
+def _minmax_members(which):
+    """builtins.min / max of a non-empty list of ints: the result sits at some index of the list AND bounds every MEMBER
+    (`x in list`) of it.  [Same python builtin as the engine's model, which states the bound per index only; the engine
+    describes a filtered list comprehension by membership (`passing source element in result`), and solvers do not get
+    from seq.contains back to an index.]"""
+
+    def f(ex, st, args, kwargs, node):
+        (v,) = args
+        if kwargs or v.is_py or not isinstance(v.ty, List) or v.ty.elem != INT:
+            return _models.BUILTIN_MODELS["builtins." + which].model(ex, st, args, kwargs, node)
+        s = lift(v)
+        ex.safety(st, z3.Length(s) > 0, "ValueError", node)
+        m, w, x = fresh(INT, which), z3.Int(fresh_name("mw")), z3.Int(fresh_name("mx"))
+        st.assume(z3.And(w >= 0, w < z3.Length(s), s[w] == m))
+        st.assume(z3.ForAll([x], z3.Implies(z3.Contains(s, z3.Unit(x)), (m <= x) if which == "min" else (m >= x))))
+        return Val(INT, m)
+
+    return f
+
+
+def _os2_globals():
+    import math
+
+    import ufo2ft.fontInfoData as fid
+
+    class _Fn(FuncRef):
+        def __init__(self, obj):
+            FuncRef.__init__(self, obj, f"{obj.__module__}.{obj.__qualname__}")
+
+        def __call__(self, *a, **k):
+            return self.obj(*a, **k)
+
+    return {"getAttrWithFallback": _Fn(fid.getAttrWithFallback), "math": math}
+
+
+contract(
+    "ufo2ft.outlineCompiler:BaseOutlineCompiler.setupTable_OS2",
+    name="c04",
+    props=["C04"],
+    params={"self": Ref("OutlineCompiler")},
+    globals=_os2_globals(),
+    # UFO3 fixes the lengths of these two info lists (the code indexes them): precondition from the code, as in the #c16 variant
+    requires=[f"len({_gi('openTypeOS2FamilyClass')}) == 2", f"len({_gi('openTypeOS2Panose')}) == 10"],
+    ensures={
+        "first-is-min": f"implies({_HAS_OS2} and len({_UM}) > 0, {_OS2}.fsFirstCharIndex in {_UM} and all({_OS2}.fsFirstCharIndex <= k for k in {_UM}))",
+        "last-is-clipped-max": f"implies({_HAS_OS2} and len({_UM}) > 0, {_OS2}.fsLastCharIndex <= 65535 and all({_OS2}.fsLastCharIndex >= k or ({_OS2}.fsLastCharIndex == 65535 and k > 65535) for k in {_UM})"
+        f" and ({_OS2}.fsLastCharIndex in {_UM} or ({_OS2}.fsLastCharIndex == 65535 and any(k > 65535 for k in {_UM}))))",
+        "no-characters": f"implies({_HAS_OS2} and len({_UM}) == 0, {_OS2}.fsFirstCharIndex == 65535 and {_OS2}.fsLastCharIndex == 65535)",
+    },
+    canaries={"one-character": f"{_HAS_OS2} and {_OS2}.fsFirstCharIndex == {_OS2}.fsLastCharIndex"},
+    locals={"selection": List(INT), "unicodes": List(INT)},
+    models={"builtins.min": _minmax_members("min"), "builtins.max": _minmax_members("max")},
+)
+
+
+def _os2_cases(rng, n):
+    cps = [0x20, 0x41, 0x42, 0x9089, 0xFFFF, 0x10000, 0x1F600, 0x2F800]
+    out = []
+    for k in range(n):
+        g = rtlib.rand_glyphs(rng, n=rng.randint(0, 4))
+        pool = cps[:]
+        rng.shuffle(pool)
+        if k % 3 == 0:
+            pool = [c for c in pool if c <= 0xFFFF]
+        for v in g.values():
+            v["unicodes"] = [pool.pop() for _ in range(rng.randint(0, 2)) if pool]
+        if k % 7 == 0:
+            for v in g.values():
+                v["unicodes"] = []
+        out.append({"glyphs": g, "flavor": "otf" if k % 2 else "ttf"})
+    return out
+
+
+CONTRACTS["ufo2ft.outlineCompiler:BaseOutlineCompiler.setupTable_OS2#c04"].runtime = Runtime(
+    _os2_cases, lambda d: {"self": rtlib.outline_compiler(d, d["flavor"], upto=("head", "hmtx", "hhea", "maxp", "cmap"))}, call=lambda fn, a: fn(a["self"]))
